@@ -8,3 +8,4 @@ pub mod lexicon;
 pub mod monitors;
 pub mod rng;
 pub mod spell;
+pub mod streams;
